@@ -592,6 +592,17 @@ def run(ck):
         with vv.Lock("coq"):
             vv.write_if_changed(os.path.join(vv.COQ, "Gen", "ValidFacts.v"), text)
         ck.tie = "regenerated+correspondence"
+    # the binary64 expressions of ratio / target_size (Gen/ValidTargetFacts.v), subject of the Flocq proof
+    text, problems = valid_facts.generate_target(vv.snapshot()[0])
+    if problems:
+        ck.notes.append("translator (target_size): " + "; ".join(problems)[:400] + " -- checked-in expressions kept")
+        rc, good = vv.sh(["git", "-C", vv.VERIF, "show", "HEAD:coq/Gen/ValidTargetFacts.v"])
+        if rc == 0 and "gen_ratio" in good:
+            with vv.Lock("coq"):
+                vv.write_if_changed(os.path.join(vv.COQ, "Gen", "ValidTargetFacts.v"), good)
+    else:
+        with vv.Lock("coq"):
+            vv.write_if_changed(os.path.join(vv.COQ, "Gen", "ValidTargetFacts.v"), text)
     res = vv.prove("Properties_C16", vv.FLOCQ_AXIOMS)
     ck.add_proof(res)
     # what is false of the pinned tree's model (the typeid finding), kept as machine-checked witnesses
@@ -605,13 +616,11 @@ def run(ck):
         "H_draws: random::sup(k) returns 0 <= r < k (a draw outside the range is an error outcome of the model, "
         "the theorems' progress parts assume it); boolean draws are unconstrained (the theorems hold for every "
         "outcome, whatever the probability)",
-        "H_target: static_cast<ptrdiff_t>(target_size) of dss::shake_impl, as a function tsz of the number n of "
-        "examples, satisfies 1 <= tsz n < n (hypothesis target_ok of the non-emptiness / definedness theorems); proved "
-        "for the exact rational value target_q for every n >= 2, and for the binary64 evaluation of the C++ "
-        "expression (Flocq, tsz_f64, the function the extracted model runs) for n < 5000 (..._binary64_partial); "
-        "beyond that binary64 is compared with target_q on every run (python doubles up to 200000 / 3*10^6, the "
-        "C++ expression compiled with the library's flags on 4000 sizes)",
-        "the four Flocq/stdlib axioms are printed only by the two ..._binary64_partial theorems; all others are "
+"H_target (1 <= static_cast<ptrdiff_t>(target_size) < n) is no longer a hypothesis for the code's arithmetic: "
+        "C16_target_size_binary64 proves it with Flocq for the binary64 evaluation of the expressions regenerated "
+        "from dss.cc, for every 2 <= n < 2^53 (static_cast<double>(n) exact); the generic theorems keep it as the "
+        "premise target_ok so that they also cover the exact rational value (proved for all n)",
+        "the four Flocq/stdlib axioms are printed only by the three ..._binary64 theorems; all others are "
         "closed under the global context",
         "evaluators are abstracted to counters of clear() calls; examples to (uid, opaque payload, difficulty, age)"]
 
